@@ -343,11 +343,17 @@ class AnnotationsItem:
                         escaping = False
                         blocks.append("\\\\")
                     else:
+                        # A pending single asterisk is emitted before the
+                        # escape sequence starts.
+                        if prev_char == "*" and not globstar:
+                            blocks.append(r"[^/]*")
                         escaping = True
                 elif char == "*":
                     if escaping:
                         blocks.append(re.escape("*"))
                         escaping = False
+                        # A literal asterisk must not arm the wildcard logic.
+                        char = ""
                     elif prev_char == "*" and not globstar:
                         globstar = True
                         blocks.append(r".*")
